@@ -514,6 +514,36 @@ def explore_collection(spec, acc):
                         if got != want:
                             acc.fail(f"member sequence slice: features differ from the retained feature residues [{impl} collection; {attach}; {hkind}]",
                                      dict(case, member=n, slice=[a, b]), {"got": got, "want": want})
+    # a collection made from slices (and reverse complements of slices) of annotated sequences: collection-level queries
+    # place every feature where the member's own query places it
+    if attach == "add_feature":
+        from cogent3 import make_seq
+
+        for (s, e), strand, (a, b), do_rc in itertools.product(spans, "+-", [(x, y) for x in range(L) for y in range(x + 1, L + 1)], (False, True)):
+            case = {"coll": impl, "L": L, "attach": "members are slices of annotated sequences", "feature": {"spans": [[s, e]], "strand": strand}, "slice": [a, b], "rc": do_rc}
+            acc.case(None)
+            try:
+                chrom = make_seq(parents[N1], name=N1, moltype="dna", new_type=new)
+                chrom.add_feature(biotype="gene", name="g", spans=[(s, e)], strand=strand)
+                other = make_seq(parents[N2], name=N2, moltype="dna", new_type=new)
+                member = chrom[a:b].rc() if do_rc else chrom[a:b]
+                coll = make_unaligned_seqs([member, other], moltype="dna", new_type=new)
+                got = sorted((f.name, str(f.get_slice())) for f in coll.get_features(biotype="gene", allow_partial=True))
+                own = sorted((f.name, str(f.get_slice())) for f in member.get_features(biotype="gene", allow_partial=True))
+            except Exception as ex:  # noqa: BLE001
+                acc.fail(f"collection of sliced annotated sequences: raised {type(ex).__name__} [{impl} collection]", case, {"error": str(ex)[:200]})
+                continue
+            keep = set(range(a, b))
+            want_s = feature_residues(parents[N1], {"spans": [(s, e)], "strand": strand}, keep)
+            want = [("g", want_s)] if want_s else []
+            acc.outcome(("coll-sliced", len(got)))
+            if own == want and got != want:
+                # what is wrong: features outside the member's view reported with an empty slice, or residues misplaced
+                nonempty = [x for x in got if x[1]]
+                how = ("also returns features that lie outside the member's view (empty slices)" if nonempty == want
+                       else "places a feature on the wrong residues")
+                acc.fail(f"collection of sliced annotated sequences: collection-level get_features {how} [{impl} collection; {'rc of a slice' if do_rc else 'slice'}]",
+                         case, {"collection": got, "member": own, "want": want})
     acc.sample({"collection": impl, "attach": attach, "L": L, "histories": len(hists)}, f"coll-{impl}-{attach}")
 
 
@@ -546,7 +576,7 @@ def replay(case):
 
     acc = Acc()
     if "coll" in case:
-        explore_collection({"impl": case["coll"], "L": case["L"], "attach": case["attach"]}, acc)
+        explore_collection({"impl": case["coll"], "L": case["L"], "attach": "add_feature" if case["attach"].startswith("members are") else case["attach"]}, acc)
     elif "aln" in case:
         rows = case["aln"]
         L = len(rows["s1"])
